@@ -95,6 +95,8 @@ structure SemOpts where
   strictDone : Bool := false
   /-- substitute the current byte for `$last` in events (strict) or keep it symbolic -/
   substLast : Bool := true
+  /-- identify `s = ""` with `delete s` (what `use-delete-for-empty-string` replaces) in events -/
+  canonEmptyStr : Bool := true
   deriving Repr, Inhabited
 
 /-! ### Events and questions -/
@@ -231,7 +233,7 @@ mutual
           (.emit (.appendC out (subst c.o c.x e)) (kNext st))
     | .set out e, st, kNext, _ => .emit (.set out (subst c.o c.x e)) (kNext st)
     | .setStr out bytes, st, kNext, _ =>
-        .emit (if bytes.isEmpty then .delete out else .setStr out bytes) (kNext st)
+        .emit (if bytes.isEmpty && c.o.canonEmptyStr then .delete out else .setStr out bytes) (kNext st)
     | .delete out, st, kNext, _ => .emit (.delete out) (kNext st)
     | .brk endState after, st, _, kSkip =>
         after.tree c st (fun _ => .emit .brk (kSkip endState)) kSkip
